@@ -476,6 +476,11 @@ void chist_exec(const chist *h, int i, vh_obj *ob, ctrans *t, const char *prefix
     }
     if (vh_post_call_hook) vh_post_call_hook(ob, i);
     t->r[i].ret = ret;
+    if (vh_def_available()) {
+        if (o->kind != C_CLEANUP) vh_check_defined("return-value", &ret, sizeof(ret));
+        if (t->r[i].olen) vh_check_defined("output", t->out + t->r[i].ooff, t->r[i].olen);
+        if (obj) vh_check_defined("handle", &ob->H, 2 * sizeof(void *));
+    }
     if (used_a && vh_gcheck(used_a == 2 ? 1 : 0, &where) && !t->canary_damage) { t->canary_damage = i + 1; t->canary_where = where; }
     if (used_b && vh_gcheck(2, &where) && !t->canary_damage) { t->canary_damage = i + 1; t->canary_where = where; }
 }
